@@ -100,6 +100,12 @@ def execute(tabs, lab, variant):
             t["w"] = arr(variant, "w", [40 + k for k in range(1, len(t) + 1)])
         elif a == "SetCol":
             tabs[lab["i"] - 1][lab["c"]] = enc(variant, lab["c"], 7)
+        elif a == "SetColArr":
+            t = tabs[lab["i"] - 1]
+            cur = t._data[lab["c"]]
+            # a full-length array whose dtype KIND differs from the stored column's (int <-> float)
+            other = int if cur.dtype.kind == "f" else float
+            t[lab["c"]] = np.array([other(8)] * len(t))
         elif a == "SetScalar":
             tabs[lab["i"] - 1]["z"] = 5
         else:
@@ -190,6 +196,34 @@ def expr_queries(tabs):
     return bad
 
 
+def name_queries(tabs, heap):
+    """rows addressed by name on EVERY live table after every step (this is also what builds the name caches everywhere): first and
+    last occurrence of each name of the table's index column, and an absent name, against a scan of the specification's column"""
+    bad = []
+    for j, (t, sp) in enumerate(zip(tabs, heap)):
+        if sp["kind"] == "transposed" or t._index != "name":
+            continue
+        names = list(sp["names"])
+        for n in sorted(set(names)) + ["zz"]:
+            occ = [k for k, x in enumerate(names) if x == n]
+            try:
+                first = int(t.rows.get_index(n)) if occ else None
+                if occ:
+                    last = [int(k) for k in t.rows.indices[f"{n}::-1"]]
+                    cnt = [int(k) for k in t.rows.indices[f"{n}::{len(occ) - 1}"]]
+                    if first != occ[0] or last != [occ[-1]] or cnt != [occ[-1]]:
+                        bad.append((j + 1, n, first, last, cnt, occ))
+                else:
+                    try:
+                        t.rows.get_index(n)
+                        bad.append((j + 1, n, "found an absent name"))
+                    except KeyError:
+                        pass
+            except Exception as ex:
+                bad.append((j + 1, n, "raised", repr(ex)[:100], occ))
+    return bad
+
+
 def worker(job, shard, nshards):
     g = job["graph"]
     states, edges, parent = g["states"], g["edges"], g["parent"]
@@ -210,16 +244,19 @@ def worker(job, shard, nshards):
         variant = VARIANTS[ei % len(VARIANTS)]
         tabs = [mk_table(s, variant) for s in states[root]]
         expr_queries(tabs)
+        name_queries(tabs, states[root])
         for pi in path:
             execute(tabs, edges[pi][1], variant)
             expr_queries(tabs)
+            if len(tabs) == len(states[edges[pi][2]]):
+                name_queries(tabs, states[edges[pi][2]])
         steps = [edges[i][1] for i in path] + [lab]
         stats["edges"] += 1
 
-        def fail(summary, detail=None):
+        def fail(summary, detail=None, tags=("C14",)):
             stats["fail"] += 1
             if len(fails) < 120:
-                fails.append({"tags": ["C14"], "summary": summary, "root": [[list(s["names"]), list(s["order"])] for s in states[root]], "path": steps,
+                fails.append({"tags": list(tags), "summary": summary, "root": [[list(s["names"]), list(s["order"])] for s in states[root]], "path": steps,
                               "detail": dict(detail or {}, dtype_variant=variant)})
         exc, res = execute(tabs, lab, variant)
         want = lab.get("exc", "none")
@@ -250,6 +287,13 @@ def worker(job, shard, nshards):
             stats["expression_queries"] += 3 * len(tabs)
             if eb:
                 fail(f"after {lab['a']}: column expression of table {eb[0][0]}: t[{eb[0][1]!r}] gives {eb[0][2]}, element-wise on its current columns it is {eb[0][3]}", {"bad": repr(eb)[:800]})
+                ok = False
+        if ok:
+            nb = name_queries(tabs, heap)
+            stats["name_queries"] += sum(len(set(sp["names"])) + 1 for sp in heap if sp["kind"] != "transposed")
+            if nb:
+                fail(f"after {lab['a']}: rows addressed by name on table {nb[0][0]}: {nb[0][1:]} (name, first, 'name::-1', 'name::count-1', positions in the column)", {"bad": repr(nb)[:800]},
+                     tags=("C08", "C07"))
                 ok = False
         if ok and len(heap) > 1:
             stats["nontrivial"] += 1
